@@ -174,7 +174,11 @@ pub fn run_case_with(gd: &GenDict, mk: &dyn Fn() -> Outcome<vibrato::Dictionary>
         Outcome::Err => return CaseOut { term: fin(head(1, &gd.coq_matrix(), 0, "[]"), &extra), human, built: 1, sents: vec![] },
         Outcome::Panic => return CaseOut { term: fin(head(2, &gd.coq_matrix(), 0, "[]"), &extra), human, built: 2, sents: vec![] },
     };
-    let conn = if gd.bigram.is_some() && gd.declared_conn { gd.coq_matrix() } else { coq_conn(&dict) };
+    // the model is given the costs the definition files DECLARE (matrix.def as generated; for bigram files the defining
+    // sums when they fit 16 bits), not what the compiled connector answers: a connector that misreads its files shows up
+    // as a path that is not optimal for the declared dictionary. (C06's histories pass the connector's own answers: its
+    // check renames them by the composed mapping.)
+    let conn = if mode != "C06" && (gd.bigram.is_none() || gd.declared_conn) { gd.coq_matrix() } else { coq_conn(&dict) };
     // option setters are applied as a sequence: sometimes the opposite / another value is set
     // first and then overridden (the last call must win)
     let mut tokenizer = vibrato::Tokenizer::new(dict);
